@@ -692,6 +692,25 @@ class Dict(dict, base.Symbolic, pg_typing.CustomTyping):
     if flags.is_change_notification_enabled() and update:
       self._notify_field_updates([update])
 
+  def _set_item_on_apply(self, key: Union[str, int], value: Any) -> None:
+    """Sets an item when a schema completes or converts the members.
+
+    Called by `pg.typing.Schema.apply`: this is not a write of the user through
+    an accessor, so `accessor_writable` does not apply.
+
+    Args:
+      key: Key of the item.
+      value: Value of the item.
+    """
+    if not hasattr(self, '_sym_parent'):
+      return
+    if base.treats_as_sealed(self):
+      raise base.WritePermissionError(
+          self._error_message('Cannot modify field of a sealed Dict.'))
+    update = self._set_item_without_permission_check(key, value)
+    if flags.is_change_notification_enabled() and update:
+      self._notify_field_updates([update])
+
   def __setattr__(self, name: str, value: Any) -> None:
     """Set attribute of this Dict.
 
